@@ -974,14 +974,9 @@ pub fn run_c06(sim: &Sim, prop: &str, tier: Tier) -> Outcome {
                     }
                 }
                 Ok(res) => {
-                    if out.frames_after == 0 && !read_ahead {
-                        return fail(
-                            prop,
-                            "C06.extent",
-                            format!("a result was produced before any whole frame was taken: {:?}", res.as_ref().map(show_packet)),
-                            sig("result-without-frame"),
-                        );
-                    }
+                    // (a result produced before a whole frame was taken - e.g. an over-long
+                    // length byte rejected at once - is not forbidden by itself; a receiver that
+                    // loses its place in the stream that way is caught by the probe clause)
                     let tag = if two_phase {
                         if probe_phase {
                             Tag::Probe(0)
@@ -1098,6 +1093,11 @@ pub fn panic_site(msg: &str) -> String {
 }
 
 // ------------------------------------------------------------------ C19 ----
+
+/// The constant of C19.between: room for a partial raw link frame kept between polls by a
+/// resumable receiver (at most 255 B, 512 B with a doubling buffer), small bookkeeping and
+/// the like. Anything that grows with the history exceeds any constant soon.
+const BETWEEN_CONST: isize = 1024;
 
 /// Long traffic histories, heap measured after every poll.
 pub fn run_c19(sim: &Sim, prop: &str, tier: Tier) -> Outcome {
@@ -1307,13 +1307,13 @@ pub fn run_c19(sim: &Sim, prop: &str, tier: Tier) -> Outcome {
                 accepted_since_boundary = 0;
             }
             _ => {
-                let bound = fresh + 256 + 96 * announced as isize;
+                let bound = fresh + BETWEEN_CONST + 96 * announced as isize;
                 if live > bound {
                     return fail(
                         prop,
                         "C19.between",
                         format!(
-                            "between polls the receiver holds {} bytes; bound is fresh({}) + 256 + 96 x announced({}) = {} (poll #{}, {} of {} frames taken)",
+                            "between polls the receiver holds {} bytes; bound is fresh({}) + 1024 + 96 x announced({}) = {} (poll #{}, {} of {} frames taken)",
                             live,
                             fresh,
                             announced,
